@@ -91,6 +91,16 @@ def js_tag(prog: Program, tier: str) -> RuleResult:
     key = "JSON_TYPE_NAME"
     if key not in mod.globals_:
         raise AnalysisError("JS-TAG: tag key constant vanished")
+    # The tag lives in the same dict as the payload a subclass adds with `data.update({...})`: the key must be a name no class uses for a
+    # field of its own - a reserved (dunder) name, or text that is not an attribute name at all.
+    kval = mod.globals_[key]
+    kval = kval.value if isinstance(kval, (ast.Assign, ast.AnnAssign)) else kval
+    if not (isinstance(kval, ast.Constant) and isinstance(kval.value, str)):
+        raise AnalysisError(f"JS-TAG: {key} is no longer a text constant (`{src(kval)[:60]}`)")
+    text = kval.value
+    reserved = bool(text) and (not text.isidentifier() or (text.startswith("__") and text.endswith("__") and len(text) > 4))
+    r.check(reserved, f"{key}#reserved-key", f"{mod.path}:{getattr(kval, 'lineno', 0)}", repr(text), "the tag key is a reserved name (a dunder name, or no attribute name at all)",
+            f"the tag is stored under {text!r}, an ordinary attribute name: a class with a field of that name writes its payload over the tag (`data.update({{{text!r}: self.{text}}})`) and the serialised form no longer says which class it is")
     base = prog.cls(MODQ + ".SubclassJSONSerializer")
     f = prog.method(base.qual, "to_json", inherited=False)
     rets = _returns(f)
